@@ -126,7 +126,7 @@ def run(tier):
         P = dp.problem_json(prob)
         dm = np.asarray(out["disparity_map"].data, dtype=np.float64)
         valid = ~np.isnan(before).all(axis=2)
-        inside = (dm >= np.asarray(P["dmin"])) & (dm <= np.asarray(P["dmax"]))
+        inside = (dm * 8 >= np.asarray(P["dmin8"])) & (dm * 8 <= np.asarray(P["dmax8"]))
         if not bool(np.all(inside[valid])):
             chk.violation("wta_in_interval", feat, {"problem": P}, "a winner lies outside its pixel's interval")
         cases.append(case)
